@@ -10,6 +10,7 @@ import json
 import os
 import random
 import re
+import time
 
 import blocks_engine as be
 import vlib
@@ -26,10 +27,10 @@ def proved_names(pr, info):
 
 def cut_points(size, offsets, tier, rng):
     pts = set()
-    small = size <= (4096 if tier == "quick" else 16384)
+    small = size <= (2048 if tier == "quick" else 16384)
     if small:
-        pts.update(range(0, size, 1 if tier == "thorough" else 3))
-    want = 160 if tier == "quick" else 1500
+        pts.update(range(0, size, 1 if tier == "thorough" else 5))
+    want = 90 if tier == "quick" else 1500
     offs = [o for o in offsets if o <= size]
     if len(offs) > want:
         offs = rng.sample(offs, want)
@@ -37,7 +38,7 @@ def cut_points(size, offsets, tier, rng):
         for d in ((0, 1) if tier == "quick" else (-2, -1, 0, 1, 2)):
             if 0 <= o + d <= size:
                 pts.add(o + d)
-    stride = max(1, size // (100 if tier == "quick" else 1500))
+    stride = max(1, size // (60 if tier == "quick" else 1500))
     pts.update(range(0, size, stride))
     pts.add(size)
     return sorted(pts)
@@ -79,6 +80,7 @@ def run(tier, seed, replay=None):
             stats["files"] += 1
             for ch in be.chunks(pts, 12):
                 fcases.append("trunc name=%s at=%s" % (f, ",".join(map(str, ch))))
+    t0 = time.time()
     res = be.par_run(asan, "trunc", fcases, timeout=240, batch=8, env=env, single_timeout=60)
     for c, l, crash in res:
         n = len(c.split("at=")[1].split(","))
@@ -95,8 +97,10 @@ def run(tier, seed, replay=None):
                 crashes.append({"case": one, "what": "loading a prefix of a valid file crashed (rc=%s)" % rc, "stderr": err[-2500:]})
                 break
 
+    stats["seconds_files"] = round(time.time() - t0)
+    t0 = time.time()
     # ---- block level: prefixes of generated blocks of every type, implementation and model
-    vers = ["OB", "SK", "SSE", "FO4", "FO76"] if tier == "quick" else list(be.VERS)
+    vers = ["OB", "SSE", "FO76"] if tier == "quick" else list(be.VERS)
     plain = vlib.build_oracle("plain")
     if bcases_replay is None:
         gen = be.par_run(plain, "blocks", [c[0] for c in be.block_cases(info["blocks"], vers, [seed])], timeout=120)
@@ -116,8 +120,8 @@ def run(tier, seed, replay=None):
                 acc += t
                 offs.append(acc)
             pts = sorted(set([0] + [o + d for o in offs for d in (0, -1) if 0 <= o + d < L]))
-            if len(pts) > (12 if tier == "quick" else 60):
-                pts = sorted(rng.sample(pts, 12 if tier == "quick" else 60))
+            if len(pts) > (10 if tier == "quick" else 60):
+                pts = sorted(rng.sample(pts, 10 if tier == "quick" else 60))
             stats["block_instances"] += 1
             stats["block_prefixes"] += len(pts)
             bcases.append("rtrunc type=%s ver=%s bytes=%s at=%s" % (n, vs, kv["b1"], ",".join(map(str, pts))))
@@ -140,6 +144,7 @@ def run(tier, seed, replay=None):
             stats["model_faults"] += 1
             model_faults.append((n, vs, p))
 
+    stats["seconds_blocks"] = round(time.time() - t0)
     for cr in crashes[:10]:
         rep.violation("truncated input crashed the loader: " + cr["what"], dict(cr, family="trunc"))
     if (not pr["ok"]) or lost or hygiene:
@@ -158,7 +163,7 @@ def run(tier, seed, replay=None):
                      "the header parser and the block loop of NifFile::Load are not part of the generated model (covered by the file-prefix runs)"],
         "evaluations": stats["file_prefixes"] + stats["block_prefixes"],
         "distinct_nontrivial": stats["file_prefixes"] + stats["block_prefixes"],
-        "rule": "file level: every sample x cut points (every %s byte of small files, every primitive-read boundary of Load +-%s, a uniform stride, the full size): Load(prefix), query battery, copy, raw and default Save, destroy, in an ASan/UBSan build with a watchdog. Block level: a generated instance of every block type x versions %s, cut at primitive boundaries. Every cut point is a distinct case; all are non-trivial (a strict prefix or the whole input)" % ("3rd" if tier == "quick" else "", "1" if tier == "quick" else "2", vers),
+        "rule": "file level: every sample x cut points (every %s byte of small files, every primitive-read boundary of Load +-%s, a uniform stride, the full size): Load(prefix), query battery, copy, raw and default Save, destroy, in an ASan/UBSan build with a watchdog. Block level: a generated instance of every block type x versions %s, cut at primitive boundaries. Every cut point is a distinct case; all are non-trivial (a strict prefix or the whole input)" % ("5th" if tier == "quick" else "", "1" if tier == "quick" else "2", vers),
         "samples": fcases[:2] + [c[:160] for c in bcases[:2]],
         "input_distribution": stats,
         "traces_validated_against_impl": stats["block_prefixes"],
